@@ -752,7 +752,7 @@ static void DecodeLD(Word Code) {
                     memcpy(BAsmCode + 2, AdrVals, AdrCnt);
                     break;
                 }
-            } else {
+            } else if (AdrType != ModNone) {
                 switch (AdrType) {
                 case ModReg8:
                     BAsmCode[1 + HReg] = 0x20 | AdrMode;
